@@ -88,12 +88,12 @@ CLAIMED = {
   "DESIGN.md §3 C06"),
  "C20": ("model_checking",
   "TLA+ spec Trim.tla (package space: schema declarations x data declarations x file split; protocol P -trim-> P1 -trim-> P2) enumerated by TLC; every package trimmed twice by the cue binary built from the working tree and all three evaluated",
-  "Trim.tla enumerates packages made of 10 schema declarations (a definition, a pattern with defaults, a comprehension, an embedded defaulted disjunction, a computed field, defaults, a list schema; all of them or all but selected ones) and up to 2 (thorough 3) of 19 data declarations that repeat, refine or contradict what the schemas imply, in one file or split over two. Each package is evaluated, trimmed with `cue trim`, evaluated again - per top-level field the JSON with defaults resolved (key order ignored), the printed final form when incomplete, or ERROR must be identical - and trimmed again, which must leave the files byte-identical. An abort of the trimmer's own self-check counts as a violation.",
+  "Trim.tla enumerates packages made of 11 schema declarations (a definition, a pattern with defaults, a comprehension, an embedded defaulted disjunction, a computed field, defaults, disjunctions with two defaults, a list schema; all of them or all but selected ones) and up to 2 (thorough 3) of 22 data declarations that repeat, refine or contradict what the schemas imply, in one file or split over two. Each package is evaluated, trimmed with `cue trim`, evaluated again - per top-level field the JSON with defaults resolved (key order ignored), the printed final form when incomplete, or ERROR must be identical - and trimmed again, which must leave the files byte-identical. An abort of the trimmer's own self-check counts as a violation.",
   "trusted: TLC (enumeration only: the verdict is metamorphic - the package's own evaluation before trimming is the oracle), the projection; packages that are in error before trimming may be refused. The 'removed only if implied' clause is covered through the unchanged evaluation; no independent Redundant oracle was built.",
   "DESIGN.md §3 C20"),
  "C07": ("exploration",
   "TLA+ spec CuePrint.tla (programs = CueRewrite seed packages + extra declarations, profiles and what each promises to show) enumerated by TLC; every (program, profile) state printed by the real exporter / CLI, the text re-evaluated on its own and compared with the original",
-  "Model-driven exploration: seed packages over the CueRewrite conjunct pool (defaults, bounds, closed structs, a definition, patterns, lists, sibling references) plus one of 9 extra declarations (imports with resolved and unresolved builtin calls, comprehension, let, local definition, hidden field, defaulted struct disjunction) are evaluated and printed with Value.Syntax(cue.All) and Value.Syntax(cue.Final) + formatter, and with `cue eval` / `cue export --out cue` (binary built from the working tree). The text must compile on its own (no dangling reference, no missing import); for the All profile every field must project identically (error class, kind, scalar, fields and their kinds, closedness, default, concreteness, in-language probes), for Final / eval / export the data of concrete fields must be identical and cue export must exit non-zero exactly when a regular field is not concrete.",
+  "Model-driven exploration: seed packages over the CueRewrite conjunct pool (defaults, bounds, closed structs, a definition, patterns, lists, sibling references) plus one of 12 extra declarations (imports with resolved and unresolved builtin calls, comprehension, let, local definition, hidden field, defaulted struct disjunction, integer and float ranges the printer may simplify to uint or sized types) are evaluated and printed with Value.Syntax(cue.All) and Value.Syntax(cue.Final) + formatter, and with `cue eval` / `cue export --out cue` (binary built from the working tree). The text must compile on its own (no dangling reference, no missing import); for the All profile every field must project identically (error class, kind, scalar, fields and their kinds, closedness, default, concreteness, in-language probes), for Final / eval / export the data of concrete fields must be identical and cue export must exit non-zero exactly when a regular field is not concrete.",
   "trusted: TLC (enumeration), the projection of C01; canary: an altered text must project differently. Packages with a field in error are only compared under the All profile. Values outside the pool (deep nesting, attributes, comments) are not covered.",
   "DESIGN.md §3 C07"),
  "C08": ("exploration",
